@@ -93,6 +93,18 @@ type Case struct {
 
 func (c *Case) tag(t string) { c.Tags[t]++ }
 
+// hdrValue draws the value of a request/response header modifier. Header values are free-form strings for the API
+// server (1..4096 characters, no pattern); NGF's validator (validateEscapedStringNoVarExpansion) must reject every value
+// in which NGINX would see a variable reference or an unterminated string: a `$` anywhere — also behind a backslash,
+// which does not escape `$` for ngx_http_script_compile —, an unescaped `"`, a trailing backslash.
+func hdrValue(r *rng.R, c *Case) string {
+	if r.Chance(3, 5) {
+		return rng.Pick(r, []string{"a", "s", `q\"x`, `a \" b`, "semi;colon", "{b}", `back\\slash`, `tab\tx`})
+	}
+	c.tag("header-value-with-dollar-or-open-quote")
+	return rng.Pick(r, []string{`a\$b`, `\$host`, `x\\$y`, `q\"$z`, `end\$`, `$plain`, `a${b}c`, `\\\$w`, `open"quote`, `trailing\`, `sp \$remote_addr x`})
+}
+
 // randomPath builds an admissible path from metacharacter-rich segments.
 func randomPath(r *rng.R) string {
 	alphabet := []string{"a", "b", "x", "(", ")", "*", "+", ".", "$", "'", "~", "=", "@", ",", ":", "&", "!", "-", "_", "%41", "9"}
@@ -155,7 +167,8 @@ func Generate(r *rng.R, mode int) *Case {
 
 	// GatewayClass (+ NginxProxy)
 	gc := p.GatewayClass(p.DefaultClass, p.DefaultController, next())
-	telemetry := false
+	telemetry := false           // an exporter is configured: the otel module is loaded
+	telemetryNoExporter := false // spec.telemetry present without exporter
 	if r.Chance(2, 3) {
 		np := &ngfAPI.NginxProxy{ObjectMeta: p.Meta("", "np", next())}
 		switch r.Intn(4) {
@@ -169,7 +182,10 @@ func Generate(r *rng.R, mode int) *Case {
 			np.Spec.IPFamily = ptr(ngfAPI.Dual)
 			c.tag("dual")
 		}
-		if r.Chance(1, 2) {
+		// telemetry shapes: absent / exporter (with or without interval+batch) / present WITHOUT exporter (every field of
+		// spec.telemetry is optional: empty, or only serviceName / spanAttributes). Only an exporter loads ngx_otel_module.
+		switch r.Intn(6) {
+		case 0, 1, 2:
 			telemetry = true
 			c.tag("telemetry")
 			np.Spec.Telemetry = &ngfAPI.Telemetry{Exporter: &ngfAPI.TelemetryExporter{
@@ -179,7 +195,14 @@ func Generate(r *rng.R, mode int) *Case {
 				np.Spec.Telemetry.Exporter.Interval = ptr(ngfAPI.Duration("5s"))
 				np.Spec.Telemetry.Exporter.BatchSize = ptr(int32(512))
 				np.Spec.Telemetry.Exporter.BatchCount = ptr(int32(4))
+				c.tag("telemetry-exporter-interval-batch")
 			}
+		case 3, 4:
+			np.Spec.Telemetry = &ngfAPI.Telemetry{}
+			telemetryNoExporter = true
+			c.tag("telemetry-without-exporter")
+		}
+		if np.Spec.Telemetry != nil {
 			if r.Bool() {
 				np.Spec.Telemetry.ServiceName = ptr(rng.Pick(r, []string{"my-svc", "S_1", "a"}))
 			}
@@ -412,10 +435,10 @@ func Generate(r *rng.R, mode int) *Case {
 			case 4:
 				h1, h2 := rng.Pick(r, hdrPool), rng.Pick(r, hdrPool)
 				hf := &gatewayv1.HTTPHeaderFilter{
-					Add: []gatewayv1.HTTPHeader{{Name: gatewayv1.HTTPHeaderName(h1), Value: rng.Pick(r, []string{"a", `q\"x`, "semi;colon", "{b}"})}},
+					Add: []gatewayv1.HTTPHeader{{Name: gatewayv1.HTTPHeaderName(h1), Value: hdrValue(r, c)}},
 				}
 				if !strings.EqualFold(h1, h2) {
-					hf.Set = []gatewayv1.HTTPHeader{{Name: gatewayv1.HTTPHeaderName(h2), Value: "s"}}
+					hf.Set = []gatewayv1.HTTPHeader{{Name: gatewayv1.HTTPHeaderName(h2), Value: hdrValue(r, c)}}
 				}
 				if r.Bool() {
 					hf.Remove = []string{"X-Gone"}
@@ -428,8 +451,8 @@ func Generate(r *rng.R, mode int) *Case {
 			case 5:
 				h1 := rng.Pick(r, hdrPool)
 				rule.Filters = []gatewayv1.HTTPRouteFilter{{Type: gatewayv1.HTTPRouteFilterResponseHeaderModifier, ResponseHeaderModifier: &gatewayv1.HTTPHeaderFilter{
-					Set:    []gatewayv1.HTTPHeader{{Name: gatewayv1.HTTPHeaderName(h1), Value: "s"}},
-					Add:    []gatewayv1.HTTPHeader{{Name: "X-RAdd", Value: `a \" b`}},
+					Set:    []gatewayv1.HTTPHeader{{Name: gatewayv1.HTTPHeaderName(h1), Value: hdrValue(r, c)}},
+					Add:    []gatewayv1.HTTPHeader{{Name: "X-RAdd", Value: hdrValue(r, c)}},
 					Remove: []string{rng.Pick(r, hdrPool)},
 				}}}
 				c.tag("filter-respheader")
@@ -467,6 +490,16 @@ func Generate(r *rng.R, mode int) *Case {
 			}
 			for _, b := range backends(ns) {
 				rule.BackendRefs = append(rule.BackendRefs, gatewayv1.GRPCBackendRef{BackendRef: p.BackendRef(b)})
+			}
+			if r.Chance(1, 3) { // header modifiers of a GRPCRoute go through the same value validator
+				hf := &gatewayv1.HTTPHeaderFilter{Set: []gatewayv1.HTTPHeader{{Name: "X-Grpc-Set", Value: hdrValue(r, c)}},
+					Add: []gatewayv1.HTTPHeader{{Name: "X-Grpc-Add", Value: hdrValue(r, c)}}}
+				if r.Bool() {
+					rule.Filters = []gatewayv1.GRPCRouteFilter{{Type: gatewayv1.GRPCRouteFilterRequestHeaderModifier, RequestHeaderModifier: hf}}
+				} else {
+					rule.Filters = []gatewayv1.GRPCRouteFilter{{Type: gatewayv1.GRPCRouteFilterResponseHeaderModifier, ResponseHeaderModifier: hf}}
+				}
+				c.tag("grpc-header-modifier")
 			}
 			rules = append(rules, rule)
 		}
@@ -526,13 +559,19 @@ func Generate(r *rng.R, mode int) *Case {
 		c.Objs = append(c.Objs, csp)
 		c.tag("csp-on-gateway")
 	}
-	if telemetry && len(routes) > 0 && r.Chance(3, 4) {
+	// ObservabilityPolicies on routes: mostly with an exporter, but also without one / without telemetry at all (then the
+	// policy must NOT be accepted: nothing loads the otel module or defines $otel_ratio_N)
+	if (telemetry && r.Chance(3, 4) || telemetryNoExporter && r.Chance(4, 5) || !telemetry && !telemetryNoExporter && r.Chance(1, 6)) && len(routes) > 0 {
 		t := rng.Pick(r, routes)
+		if !telemetry {
+			c.tag("observability-policy-without-exporter-on-" + strings.ToLower(t.kind))
+		}
 		op := &ngfAPIv2.ObservabilityPolicy{ObjectMeta: p.Meta(t.ns, rng.Pick(r, polPool), next())}
 		op.Spec.TargetRefs = []v1alpha2.LocalPolicyTargetReference{{Group: "gateway.networking.k8s.io", Kind: gatewayv1.Kind(t.kind), Name: gatewayv1.ObjectName(t.name)}}
 		tr := &ngfAPIv2.Tracing{Strategy: rng.Pick(r, []ngfAPIv2.TraceStrategy{ngfAPIv2.TraceStrategyRatio, ngfAPIv2.TraceStrategyParent})}
 		if tr.Strategy == ngfAPIv2.TraceStrategyRatio && r.Chance(2, 3) {
 			tr.Ratio = ptr(int32(rng.Pick(r, []int{0, 1, 25, 100})))
+			c.tag(fmt.Sprintf("observability-ratio-%d", *tr.Ratio))
 		}
 		if r.Bool() {
 			tr.Context = ptr(rng.Pick(r, []ngfAPIv2.TraceContext{"extract", "inject", "propagate", "ignore"}))
